@@ -337,6 +337,10 @@ def _check_staged(case, ctx):
             return
     finally:
         pcap.BeaconConfig = orig
+    if case.get("via_wire") and uri is not None and "://" in uri.split("/", 1)[0] + "//"[: 2 * uri.startswith(uri.split("/", 1)[0] + "//")]:
+        # absolute-form target on the wire: the request object's URI is the path that parse_raw_http() extracted (its subject is
+        # C16); the gate classifies the URI of the request object
+        uri = req.uri.decode("latin-1")
     is_stager = uri is None or spec_x86(uri) or spec_x64(uri)  # uri: the request URI's bytes as characters, none dropped
     if not is_stager:
         if calls or res is not None:
@@ -469,6 +473,9 @@ def run_shard(shard, ctx):
     elif kind == "staged":
         alnum = string.ascii_letters + string.digits
         fixed = [None, "/", "", "/index.html", "/a/b/c/d", "/abcd\n", "/\xffTOKn", "/TOKn\x80", "/\xe9oOo0", "/oOo0\x80", "\x01/TOKn", "\x1f\x01/oOo0", "\x02TOKn", "//nn\x80"]
+        random.seed(shard.get("seed", 0))
+        fixed += ["http://c2.example.org" + utils.random_stager_uri(length=4), "https://a" + utils.random_stager_uri(x64=True, length=4),
+                  "http://10.0.0.1:8080" + utils.random_stager_uri(length=7)]
         for i in range(shard["n"]):
             r = rng.random()
             if i < len(fixed):
@@ -484,6 +491,19 @@ def run_shard(shard, ctx):
             if rng.random() < 0.2 and uri:
                 pos = rng.randrange(0, len(uri) + 1)
                 uri = uri[:pos] + rng.choice(["\x80", "\xff", "\xe9"]) + uri[pos:]  # a byte >= 0x80 somewhere in a (stager-looking) URI
+            elif i >= len(fixed) and rng.random() < 0.15:
+                # request targets in absolute form: the checksum is over the whole target as it stands on the wire - a stager path
+                # behind scheme and host is no stager URI, and a target whose characters sum to 92 is one
+                prefix = rng.choice(["http://c2.example.org", "https://a", "http://10.0.0.1:8080"])
+                if rng.random() < 0.5:
+                    random.seed(rng.getrandbits(32))
+                    uri = prefix + utils.random_stager_uri(x64=rng.random() < 0.3, length=4)
+                else:
+                    for _ in range(3000):
+                        tail = "/" + "".join(rng.choice(alnum) for _ in range(rng.randrange(3, 8)))
+                        if sum(ord(c) for c in prefix + tail if c != "/") % 256 == 92:
+                            break
+                    uri = prefix + tail
             elif i >= len(fixed) and rng.random() < 0.2:
                 # bytes that form a valid multi-byte UTF-8 sequence; the checksum is over the bytes of the request target: URIs
                 # whose BYTE sum is 92 (stagers) and URIs whose sum would be 92 only if the sequence counted as one character
@@ -500,7 +520,7 @@ def run_shard(shard, ctx):
             wire_ok = uri is not None and uri != "" and not any(ch in uri for ch in " \t\n\r\x0b\x0c?#")
             for body in ("payload", "junk"):
                 check_case({"op": "staged", "uri": uri, "body": body, "junk": _rbytes(rng, rng.randrange(0, 64)),
-                            "method": rng.choice([b"GET", b"GET", b"POST", b"HEAD", b"get", b"PUT"]), "via_wire": wire_ok and rng.random() < 0.6}, ctx)
+                            "method": rng.choice([b"GET", b"GET", b"POST", b"HEAD", b"get", b"PUT"]), "via_wire": wire_ok and rng.random() < 0.6 and not (i < len(fixed) and body == "payload")}, ctx)
     else:
         raise ValueError(kind)
 
